@@ -28,11 +28,8 @@ def claims_model(claims: dict, requests: dict, nows: list, leeway):
     for name, val in claims.items():
         opt = requests.get(name)
         if name in ("exp", "nbf", "iat"):
-            if isinstance(val, bool):
-                return must, may, "bool offered as NumericDate"
-            if isinstance(val, float) and (math.isnan(val) or math.isinf(val)):
-                return must, may, "NaN / infinity as NumericDate"
-            if not isinstance(val, (int, float)):
+            if isinstance(val, bool) or not isinstance(val, (int, float)) or val != val:
+                # a JSON boolean is not a number; NaN is "a number" that is neither before nor after anything
                 must.add("invalid")
                 continue
             verdicts = set()
